@@ -428,6 +428,9 @@ func c12WordOps(rep *report.Report) {
 				variants = append(variants, variant{b, b[:i] + " \t" + b[i+1:]}, variant{b, b[:i] + "\n " + b[i+1:]})
 			}
 		}
+		// whitespace around the whole query and just inside parentheses / brackets
+		variants = append(variants, variant{b, " " + b}, variant{b, b + " "}, variant{b, "\t\n" + b + "\r\n"},
+			variant{b, strings.NewReplacer("(", "(\t", ")", "\n)", "[", "[\n", "]", "\t]", ",", "\t,\n").Replace(b)})
 		// comparison operators allow no blanks at all
 		variants = append(variants, variant{b, strings.NewReplacer(" = ", "=", " != ", "!=", " > ", ">").Replace(b)})
 	}
